@@ -104,6 +104,31 @@ def run(chk):
         specs.append({'buf': buf, 'body': body, 'ctype': ctype, 'what': 'forms+files', 'chunked': rng.random() < 0.4, 'seed': rng.randrange(10 ** 9),
                       'in_thread': False})
         metas.append((b, fs, body, buf, ctype))
+    # long text values (tens of kilobytes, still within the in-memory threshold) made of multi-byte characters at every
+    # alignment: however the value is taken out of the body, it is decoded as ONE text
+    lspecs, lmetas = [], []
+    for i in range(40 if thorough else 8):
+        b = rng.choice(boundaries[:3])
+        unit = rng.choice(['\u00e9', '\u20ac', '\U0001F600', 'a\u00e9\u20ac'])
+        nbytes = rng.choice([16384, 32768, 65536, 20000]) + rng.randint(0, 40)
+        val = 'x' * (i % 4) + unit * (nbytes // len(unit.encode('utf8')))
+        fs = [{'name': 'note', 'value': 'short'}, {'name': 'essay', 'value': val}, {'name': 'tail', 'value': '\u00e9nd'}]
+        body = mplib.encode_form(fs, b)
+        buf = len(body) + 1000
+        ctype = 'multipart/form-data; boundary=' + quote_boundary(rng, b)
+        lspecs.append({'buf': buf, 'body': body, 'ctype': ctype, 'what': 'forms+files', 'chunked': rng.random() < 0.4, 'seed': rng.randrange(10 ** 9),
+                       'in_thread': False})
+        lmetas.append((b, fs, body, buf, ctype))
+    # (values of this size are compared in the harness: the same RoundTrip clause, stated as plain equality of what was submitted
+    #  and what request.forms holds -- tens of thousands of code points per value are too much for TLC's sequences)
+    for (b, fs, body, buf, ctype), res in zip(lmetas, fl.post_batch(lspecs, time_limit=20.0)):
+        want = [[f['name'], [f['value']]] for f in fs]
+        got = [[k, list(vs)] for k, vs in res.get('forms', [])]
+        chk.count(1, ('long-text', b, len(body)))
+        if res['status'] != 200 or res['escaped'] or res['hang'] or sorted(got) != sorted(want) or res.get('files'):
+            chk.violation('C07: [\'RoundTrip\'] fails: a form with a text value of %d bytes of multi-byte characters (max_memfile_size %d) -> status %s, '
+                          'forms %s' % (len(fs[1]['value'].encode('utf8')), buf, res['status'], [[k, [len(v) for v in vs]] for k, vs in got]),
+                          {'boundary_hex': b.hex(), 'body_hex': body.hex(), 'ctype': ctype, 'buf': buf, 'clauses': ['RoundTrip'], 'long_text': True})
     for meta, res in zip(metas, fl.post_batch(specs, time_limit=10.0)):
         if meta is None:
             continue
